@@ -24,6 +24,7 @@ const c16MaxDK = (1<<32 - 1) * 32 // RFC 7914: dkLen <= (2^32 - 1) * 32
 type c16Args struct {
 	pw, salt     []byte
 	n, r, p, dkl int
+	mem          int // memory layout class of the two byte-slice inputs
 }
 
 func (a c16Args) String() string {
@@ -32,7 +33,13 @@ func (a c16Args) String() string {
 
 // c16Call runs scrypt.Key under recover.
 func c16Call(a c16Args) (out []byte, err error, panicked error) {
-	panicked = noPanic(func() { out, err = scrypt.Key(a.pw, a.salt, a.n, a.r, a.p, a.dkl) })
+	lay := placeInputs(a.mem, a.pw, a.salt)
+	panicked = noPanic(func() { out, err = scrypt.Key(lay.placed[0], lay.placed[1], a.n, a.r, a.p, a.dkl) })
+	if panicked == nil {
+		if merr := lay.check(); merr != nil {
+			panicked = fmt.Errorf("%w", merr) // reported like a panic: the call damaged its caller
+		}
+	}
 	return
 }
 
@@ -66,7 +73,7 @@ func c16Check(a c16Args, extra func(want []byte) error) (viol error, f2 bool, tr
 	rejected := c16ParamsRejected(a)
 	badLen := a.dkl < 0 || a.dkl > c16MaxDK
 	if pan != nil {
-		return fmt.Errorf("%v panicked: %v", a, pan), !rejected && (a.dkl <= 0 || a.dkl > c16MaxDK), nil
+		return fmt.Errorf("%v failed: %v", a, pan), !rejected && !strings.Contains(pan.Error(), "caller memory") && (a.dkl <= 0 || a.dkl > c16MaxDK), nil
 	}
 	if err != nil && out != nil {
 		return fmt.Errorf("%v returned an error (%v) together with a non-nil slice of %d bytes", a, err, len(out)), false, nil
@@ -133,7 +140,7 @@ func TestC16(t *testing.T) {
 	py := toolPath("python3")
 	pyBudget := ev.Scale(3, 40)
 	if py != "" {
-		if got, err := c16Hashlib(py, c16Args{nil, nil, 16, 1, 1, 64}); err != nil || !strings.HasPrefix(hex.EncodeToString(got), "77d6576238657b20") {
+		if got, err := c16Hashlib(py, c16Args{nil, nil, 16, 1, 1, 64, 0}); err != nil || !strings.HasPrefix(hex.EncodeToString(got), "77d6576238657b20") {
 			c.Assumption(fmt.Sprintf("python3 hashlib.scrypt unusable (%v): differential skipped", err))
 			py = ""
 		} else {
@@ -149,7 +156,7 @@ func TestC16(t *testing.T) {
 	_, f2Listed := ev.IsKnownFinding("F2")
 	f2Present := false
 	var witnessFailure error
-	for _, w := range []c16Args{{[]byte("p"), []byte("s"), 16, 1, 1, 0}, {[]byte("p"), []byte("s"), 16, 1, 1, -1}, {nil, nil, 2, 1, 1, c16MaxDK + 1}} {
+	for _, w := range []c16Args{{[]byte("p"), []byte("s"), 16, 1, 1, 0, 0}, {[]byte("p"), []byte("s"), 16, 1, 1, -1, 1}, {nil, nil, 2, 1, 1, c16MaxDK + 1, 0}} {
 		viol, isF2, _ := c16Check(w, nil)
 		if viol == nil {
 			c.Case(true, fmt.Sprintf("witness|%d", w.dkl), "F2-witness:ok")
@@ -220,6 +227,8 @@ func TestC16(t *testing.T) {
 			a.pw, a.salt = nil, nil
 		}
 
+		a.mem = drawMem(rt)
+		classes = append(classes, "mem="+memClasses[a.mem])
 		rejected := c16ParamsRejected(a)
 		if !rejected {
 			// an accepted call: keep it affordable (size bound, not a time limit)
@@ -295,7 +304,7 @@ func TestC16(t *testing.T) {
 					if !ev.Mine(idx) {
 						continue
 					}
-					a := c16Args{detBytes("c16.pw", idx, idx%7), detBytes("c16.salt", idx, idx%5), nn, r, p, k}
+					a := c16Args{detBytes("c16.pw", idx, idx%7), detBytes("c16.salt", idx, idx%5), nn, r, p, k, idx}
 					if !c16ParamsRejected(a) && k <= 0 && f2Listed && f2Present {
 						c.Excluded()
 						continue
